@@ -19,9 +19,10 @@ Lookup(f, c) == IF c \in DOMAIN f THEN f[c] ELSE "none"
 \* join of two partial maps canon -> type
 Join(f, g) == [c \in DOMAIN f \cup DOMAIN g |-> Up(Lookup(f, c), Lookup(g, c))]
 \* partial map of what a call's nodes could record
-RECURSIVE NodesMap(_, _)
-NodesMap(nodes, k) == IF k > Len(nodes) THEN <<>>
-                      ELSE Join((nodes[k].c :> nodes[k].t), NodesMap(nodes, k + 1))
+\* (the highest type among the nodes from index k on that carry the URL; pages can have hundreds of nodes, so no recursion)
+TypeAmong(nodes, S) == IF S = {} THEN "none" ELSE IF \E j \in S : nodes[j].t = "seed" THEN "seed"
+                       ELSE IF \E j \in S : nodes[j].t = "asset" THEN "asset" ELSE "none"
+NodesMap(nodes, k) == [c \in {nodes[j].c : j \in k..Len(nodes)} |-> TypeAmong(nodes, {j \in k..Len(nodes) : nodes[j].c = c})]
 
 Init == l = 1 /\ rec = <<>> /\ open = <<>>     \* open: id -> [nodes, lo, over]
 
@@ -32,8 +33,8 @@ RECURSIVE Judge(_, _, _, _, _, _, _)
 Judge(nodes, st, k, lo, over, line, honour) ==
   IF k > Len(nodes) THEN TRUE
   ELSE LET n == nodes[k]
-           own == NodesMap(SubSeq(nodes, 1, k - 1), 1)
-           lok == Up(Lookup(lo, n.c), Lookup(own, n.c))
+           own == TypeAmong(nodes, {j \in 1..(k - 1) : nodes[j].c = n.c})
+           lok == Up(Lookup(lo, n.c), own)
            hik == Up(lok, Lookup(over, n.c))
            must == Rank(lok) >= 2 \/ (Rank(lok) >= 1 /\ n.t = "asset")
            may == Rank(hik) >= 2 \/ (Rank(hik) >= 1 /\ n.t = "asset")
